@@ -236,9 +236,34 @@ def _returns_to_assign(stmts, target: str | None):
         if isinstance(st, (ast.FunctionDef, ast.AsyncFunctionDef, ast.ClassDef)) or not _has_return(st):
             out.append(st)
             continue
+        rest = stmts[i + 1:]
+        if isinstance(st, (ast.With, ast.AsyncWith, ast.Try)) and not rest:
+            # the last statement of the helper: leaving it by `return e` == binding e and running off its end (the exit of
+            # the `with` / the `finally` run in both cases); not when an `else:` clause would then run after the try body
+            new = _copy.copy(st)
+            blocks = [("body", st.body)]
+            if isinstance(st, ast.Try):
+                if any(_has_return(x) for x in st.finalbody) or (st.orelse and any(_has_return(x) for x in st.body)):
+                    return None
+                blocks.append(("orelse", st.orelse))
+                hs = []
+                for h in st.handlers:
+                    hb = _returns_to_assign(h.body, target)
+                    if hb is None:
+                        return None
+                    h2 = _copy.copy(h)
+                    h2.body = hb or [ast.copy_location(ast.Pass(), h)]
+                    hs.append(h2)
+                new.handlers = hs
+            for field, blk in blocks:
+                nb = _returns_to_assign(blk, target)
+                if nb is None:
+                    return None
+                setattr(new, field, nb if (nb or field == "orelse") else [ast.copy_location(ast.Pass(), st)])
+            out.append(new)
+            return out
         if not isinstance(st, ast.If):
             return None
-        rest = stmts[i + 1:]
         b_ends, o_ends = _ends(st.body), _ends(st.orelse)
         if (b_ends and o_ends) or not rest:
             body, orelse = _returns_to_assign(st.body, target), _returns_to_assign(st.orelse, target)
@@ -261,6 +286,7 @@ class _Resolver:
     def __init__(self, tree, cls, repo, rel):
         self.tree, self.cls, self.repo, self.rel = tree, cls, repo, rel
         self._mods: dict = {}
+        self._origin: dict = {}
 
     def _module(self, dotted: str, level: int):
         if self.repo is None:
@@ -293,6 +319,8 @@ class _Resolver:
         rel = self.rel if rel is None else rel
         defs = [n for n in tree.body if isinstance(n, ast.FunctionDef) and n.name == name]
         if len(defs) == 1:
+            if tree is not self.tree:
+                self._origin[id(defs[0])] = rel               # the module the helper's global names belong to
             return defs[0]
         if defs or depth > 2:
             return None
@@ -309,6 +337,34 @@ class _Resolver:
                         if m is None:
                             return None
                         return self.function(al.name, m[0], m[1], depth + 1)
+        return None
+
+    def klass(self, name: str, tree=None, rel=None, depth=0):
+        """The single module-level class definition `name` of this module, or of the pyxel module it is imported from."""
+        tree = self.tree if tree is None else tree
+        rel = self.rel if rel is None else rel
+        defs = [n for n in tree.body if isinstance(n, ast.ClassDef) and n.name == name]
+        other = [n for n in ast.walk(tree) if isinstance(n, (ast.Assign, ast.AnnAssign, ast.FunctionDef)) and any(
+            name in _target_names(t) for t in (n.targets if isinstance(n, ast.Assign) else
+                                               [n.target] if isinstance(n, ast.AnnAssign) else []))
+                 and n in tree.body]
+        if len(defs) == 1 and not other:
+            return defs[0]
+        if defs or other or depth > 2:
+            return None
+        for n in tree.body:
+            if isinstance(n, ast.ImportFrom):
+                for al in n.names:
+                    if (al.asname or al.name) == name:
+                        saved = self.rel
+                        self.rel = rel
+                        try:
+                            m = self._module(n.module or "", n.level)
+                        finally:
+                            self.rel = saved
+                        if m is None:
+                            return None
+                        return self.klass(al.name, m[0], m[1], depth + 1)
         return None
 
     def method(self, name: str):
@@ -422,9 +478,14 @@ class _Inliner:
             if body is None:
                 return None
         out = prologue + body
+        origin = self.res._origin.get(id(helper), getattr(call, "_mod", None))
         for st in out:
             ast.copy_location(st, call)
             ast.fix_missing_locations(st)
+            if origin is not None:
+                for node in ast.walk(st):
+                    if isinstance(node, ast.Call) and not hasattr(node, "_mod"):
+                        node._mod = origin
         # helpers called by the helper
         wrapper = ast.Module(body=out, type_ignores=[])
         self._process(wrapper, stack + [helper.name])
@@ -522,6 +583,370 @@ def subst_aliases(fn):
     return fn
 
 
+# ---- records of locals: `r = Rec(a=e1, b=e2)` ... `r.a`  ==  `_r_a = e1; _r_b = e2` ... `_r_a`
+#
+# A local bound exactly once to a tuple literal, to the constructor of a NamedTuple / dataclass declared in a pyxel module
+# (generated constructor only: no __init__ / __new__ / __post_init__ / attribute hooks, fields = the annotated names of the
+# class body) or to a dict display with constant keys only groups values; reading a field gives the value back.  The fields
+# become locals of their own (fresh names, evaluated in the order of the arguments), the field reads are replaced by them, a
+# tuple unpacking `x, y = r` becomes `x = _r_0; y = _r_1`.  Immutable records (tuple, NamedTuple, frozen dataclass) may have
+# other uses too (the construction is kept, from the field locals); a mutable record (dataclass, dict) is split only when
+# EVERY use is a field read (no store into it, never handed on) - otherwise the code is left as written.
+
+_REC_FORBIDDEN = {"__init__", "__new__", "__post_init__", "__getattr__", "__getattribute__", "__setattr__", "__get__",
+                  "__class_getitem__", "__init_subclass__"}
+
+
+def _record_class(cdef):
+    """(field names in order, {field: constant default}, immutable?) of a NamedTuple / dataclass definition, else None."""
+    bases = [ast.unparse(b) for b in cdef.bases]
+    decos = cdef.decorator_list
+    if cdef.keywords:
+        return None
+    if bases in (["NamedTuple"], ["typing.NamedTuple"]) and not decos:
+        immutable = True
+    elif not bases and len(decos) == 1:
+        d = decos[0]
+        dname = ast.unparse(d.func if isinstance(d, ast.Call) else d)
+        if dname not in ("dataclass", "dataclasses.dataclass"):
+            return None
+        immutable = False
+        if isinstance(d, ast.Call):
+            if d.args:
+                return None
+            for k in d.keywords:
+                if k.arg not in ("frozen", "slots", "eq", "order", "repr", "unsafe_hash", "match_args") \
+                        or not isinstance(k.value, ast.Constant):
+                    return None
+                if k.arg == "frozen":
+                    immutable = k.value.value is True
+    else:
+        return None
+    fields, dflt = [], {}
+    for st in cdef.body:
+        if isinstance(st, ast.AnnAssign) and isinstance(st.target, ast.Name):
+            ann = ast.unparse(st.annotation)
+            if "ClassVar" in ann or "InitVar" in ann or "KW_ONLY" in ann:
+                return None
+            fields.append(st.target.id)
+            if st.value is not None:
+                if not isinstance(st.value, ast.Constant):
+                    return None
+                dflt[st.target.id] = st.value
+        elif isinstance(st, (ast.FunctionDef, ast.AsyncFunctionDef)):
+            if st.name in _REC_FORBIDDEN or st.name in fields:
+                return None
+        elif isinstance(st, ast.Expr) and isinstance(st.value, ast.Constant):
+            pass
+        elif isinstance(st, ast.Pass):
+            pass
+        else:
+            return None
+    return (fields, dflt, immutable) if fields else None
+
+
+def _record_value(val, resolver):
+    """(kind, [(field key, expression)] in evaluation order, immutable?, rebuild(names) -> expression) or None."""
+    if isinstance(val, ast.Tuple) and val.elts and not any(isinstance(e, ast.Starred) for e in val.elts):
+        items = [(i, e) for i, e in enumerate(val.elts)]
+        return "tuple", items, True, lambda nm: ast.Tuple(elts=[nm[i] for i, _ in items], ctx=ast.Load())
+    if isinstance(val, ast.Dict) and val.keys and all(
+            isinstance(k, ast.Constant) and isinstance(k.value, str) for k in val.keys) \
+            and len({k.value for k in val.keys}) == len(val.keys):
+        return "dict", [(k.value, v) for k, v in zip(val.keys, val.values)], False, None
+    if isinstance(val, ast.Call) and isinstance(val.func, ast.Name) and resolver is not None:
+        origin = getattr(val, "_mod", None)
+        if origin is not None and resolver._mods.get(origin) is not None:
+            cdef = resolver.klass(val.func.id, resolver._mods[origin], origin)
+        else:
+            cdef = resolver.klass(val.func.id)
+        rc = _record_class(cdef) if cdef is not None else None
+        if rc is None:
+            return None
+        fields, dflt, immutable = rc
+        if any(isinstance(a, ast.Starred) for a in val.args) or any(k.arg is None for k in val.keywords) \
+                or len(val.args) > len(fields):
+            return None
+        items = list(zip(fields, val.args))
+        seen = {f for f, _ in items}
+        for k in val.keywords:
+            if k.arg in seen or k.arg not in fields:
+                return None
+            seen.add(k.arg)
+            items.append((k.arg, k.value))
+        for f in fields:
+            if f not in seen:
+                if f not in dflt:
+                    return None
+                items.append((f, dflt[f]))
+        func = val.func
+
+        def rebuild(nm, func=func, fields=fields):
+            return ast.Call(func=_copy.deepcopy(func), args=[], keywords=[ast.keyword(arg=f, value=nm[f]) for f in fields])
+        return ("namedtuple" if bases_named(cdef) else "dataclass"), items, immutable, rebuild
+    return None
+
+
+def bases_named(cdef) -> bool:
+    return [ast.unparse(b) for b in cdef.bases] in (["NamedTuple"], ["typing.NamedTuple"])
+
+
+def _parents(fn) -> dict:
+    par = {}
+    for node in ast.walk(fn):
+        for c in ast.iter_child_nodes(node):
+            par[id(c)] = node
+    return par
+
+
+def split_tuple_assigns(fn):
+    """`x, y = e1, e2`  ->  `_t_0 = e1; _t_1 = e2; x = _t_0; y = _t_1` (names only on the left, no star)."""
+    k = 0
+    for lst in list(_stmt_lists(fn)):
+        i = 0
+        while i < len(lst):
+            st = lst[i]
+            if isinstance(st, ast.Assign) and len(st.targets) == 1 and isinstance(st.targets[0], (ast.Tuple, ast.List)) \
+                    and isinstance(st.value, (ast.Tuple, ast.List)) \
+                    and len(st.targets[0].elts) == len(st.value.elts) \
+                    and all(isinstance(t, ast.Name) for t in st.targets[0].elts) \
+                    and not any(isinstance(e, ast.Starred) for e in st.value.elts):
+                k += 1
+                tmp = [f"_t{k}_{j}" for j in range(len(st.value.elts))]
+                rep = [ast.Assign(targets=[ast.Name(id=n, ctx=ast.Store())], value=e) for n, e in zip(tmp, st.value.elts)]
+                rep += [ast.Assign(targets=[ast.Name(id=t.id, ctx=ast.Store())], value=ast.Name(id=n, ctx=ast.Load()))
+                        for t, n in zip(st.targets[0].elts, tmp)]
+                for r in rep:
+                    ast.copy_location(r, st)
+                    ast.fix_missing_locations(r)
+                lst[i:i + 1] = rep
+                i += len(rep)
+            else:
+                i += 1
+    return fn
+
+
+def split_records(fn, resolver):
+    k = 0
+    skip: set = set()
+    for _ in range(12):
+        counts = _binding_counts(fn)
+        found = None
+        for lst in _stmt_lists(fn):
+            for st in lst:
+                tgt = val = None
+                if isinstance(st, ast.Assign) and len(st.targets) == 1:
+                    tgt, val = st.targets[0], st.value
+                elif isinstance(st, ast.AnnAssign) and st.value is not None:
+                    tgt, val = st.target, st.value
+                if not isinstance(tgt, ast.Name) or counts.get(tgt.id) != 1 or tgt.id in skip:
+                    continue
+                if isinstance(val, ast.Call) and isinstance(val.func, ast.Name) and val.func.id in counts:
+                    continue                          # the class name is shadowed by a local
+                rec = _record_value(val, resolver)
+                if rec is not None:
+                    found = (lst, st, tgt.id, rec)
+                    break
+            if found:
+                break
+        if not found:
+            break
+        lst, st, name, (kind, items, immutable, rebuild) = found
+        keys = [key for key, _ in items]
+        index_ok = kind in ("tuple", "namedtuple")
+        attr_ok = kind in ("namedtuple", "dataclass")
+        par = _parents(fn)
+        field_uses, unpack_uses, other = [], [], 0
+        for node in ast.walk(fn):
+            if not (isinstance(node, ast.Name) and node.id == name and isinstance(node.ctx, ast.Load)):
+                continue
+            p = par.get(id(node))
+            if attr_ok and isinstance(p, ast.Attribute) and p.value is node and isinstance(p.ctx, ast.Load) \
+                    and p.attr in keys:
+                field_uses.append((p, p.attr))
+            elif isinstance(p, ast.Subscript) and p.value is node and isinstance(p.ctx, ast.Load) \
+                    and isinstance(p.slice, ast.Constant) and (
+                    (index_ok and isinstance(p.slice.value, int) and not isinstance(p.slice.value, bool)
+                     and 0 <= p.slice.value < len(keys))
+                    or (kind == "dict" and isinstance(p.slice.value, str) and p.slice.value in keys)):
+                field_uses.append((p, keys[p.slice.value] if index_ok else p.slice.value))
+            elif index_ok and isinstance(p, ast.Assign) and p.value is node and len(p.targets) == 1 \
+                    and isinstance(p.targets[0], (ast.Tuple, ast.List)) and len(p.targets[0].elts) == len(keys) \
+                    and all(isinstance(t, ast.Name) for t in p.targets[0].elts):
+                unpack_uses.append(p)
+            else:
+                other += 1
+        hacked = any(isinstance(c, ast.Call) and ast.unparse(c.func).split(".")[-1] in ("setattr", "__setattr__", "delattr")
+                     and c.args and isinstance(c.args[0], ast.Name) and c.args[0].id == name for c in ast.walk(fn))
+        if (other and not immutable) or (other and rebuild is None) or not (field_uses or unpack_uses) or hacked:
+            skip.add(name)
+            continue
+        k += 1
+        loc = {key: f"_r{k}_{key}" for key in keys}
+        new = [ast.Assign(targets=[ast.Name(id=loc[key], ctx=ast.Store())], value=e) for key, e in items]
+        if other:
+            keep = _copy.copy(st)
+            keep.value = rebuild({key: ast.Name(id=loc[key], ctx=ast.Load()) for key in keys})
+            new.append(keep)
+        for r in new:
+            ast.copy_location(r, st)
+            ast.fix_missing_locations(r)
+        i = next(j for j, x in enumerate(lst) if x is st)
+        lst[i:i + 1] = new
+        repl = {id(node): ast.Name(id=loc[key], ctx=ast.Load()) for node, key in field_uses}
+        for parent in ast.walk(fn):
+            for field, v in ast.iter_fields(parent):
+                if isinstance(v, ast.AST) and id(v) in repl:
+                    setattr(parent, field, ast.copy_location(repl[id(v)], v))
+                elif isinstance(v, list):
+                    for j, x in enumerate(v):
+                        if isinstance(x, ast.AST) and id(x) in repl:
+                            v[j] = ast.copy_location(repl[id(x)], x)
+        for l2 in list(_stmt_lists(fn)):
+            for j, x in enumerate(list(l2)):
+                if any(x is u for u in unpack_uses):
+                    rep = [ast.copy_location(ast.Assign(targets=[ast.Name(id=t.id, ctx=ast.Store())],
+                                                        value=ast.Name(id=loc[key], ctx=ast.Load())), x)
+                           for t, key in zip(x.targets[0].elts, keys)]
+                    for r in rep:
+                        ast.fix_missing_locations(r)
+                    jj = next(q for q, y in enumerate(l2) if y is x)
+                    l2[jj:jj + 1] = rep
+    return fn
+
+
+def inline_partials(fn):
+    """`run = partial(f, a, k=v)` ... `run(b, k2=w)`  ->  `f(a, b, k=v, k2=w)`: a local bound exactly once to
+    functools.partial(...) whose EVERY use is a call (never handed on, so nobody else can call it with other arguments);
+    the frozen arguments must be names / attribute paths of roots bound at most once / constants (evaluated early or late
+    makes no difference); a keyword given at the call overrides the frozen one."""
+    for _ in range(6):
+        counts = _binding_counts(fn)
+        done = False
+        for lst in list(_stmt_lists(fn)):
+            for st in list(lst):
+                tgt = val = None
+                if isinstance(st, ast.Assign) and len(st.targets) == 1:
+                    tgt, val = st.targets[0], st.value
+                elif isinstance(st, ast.AnnAssign) and st.value is not None:
+                    tgt, val = st.target, st.value
+                if not (isinstance(tgt, ast.Name) and counts.get(tgt.id) == 1 and isinstance(val, ast.Call)
+                        and ast.unparse(val.func) in ("partial", "functools.partial") and val.args
+                        and "partial" not in counts and "functools" not in counts):
+                    continue
+                frozen = val.args[1:] + [k.value for k in val.keywords]
+                if any(isinstance(a, ast.Starred) for a in val.args) or any(k.arg is None for k in val.keywords) \
+                        or not _simple_path(val.args[0]) \
+                        or not all(isinstance(a, ast.Constant) or (_simple_path(a) and counts.get(_root(a), 0) <= 1)
+                                   for a in frozen):
+                    continue
+                par = _parents(fn)
+                uses = [n for n in ast.walk(fn) if isinstance(n, ast.Name) and n.id == tgt.id and n is not tgt]
+                calls = [par.get(id(n)) for n in uses]
+                if not uses or not all(isinstance(c, ast.Call) and c.func is n for c, n in zip(calls, uses)):
+                    continue
+                for c in calls:
+                    given = {k.arg for k in c.keywords}
+                    if None in given:
+                        break
+                else:
+                    for c in calls:
+                        given = {k.arg for k in c.keywords}
+                        c.func = ast.copy_location(_copy.deepcopy(val.args[0]), c.func)
+                        c.args = [_copy.deepcopy(a) for a in val.args[1:]] + c.args
+                        c.keywords = [_copy.deepcopy(k) for k in val.keywords if k.arg not in given] + c.keywords
+                        ast.fix_missing_locations(c)
+                    lst.remove(st)
+                    if not lst:
+                        lst.append(ast.copy_location(ast.Pass(), st))
+                    done = True
+                    break
+            if done:
+                break
+        if not done:
+            break
+    return fn
+
+
+def hoist_walrus(fn):
+    """`if (x := e) ...:` / `y = f((x := e))`  ->  `x = e` in front of the statement, when the binding is evaluated
+    unconditionally and first (nothing of the statement that is evaluated before it reads x or can be affected by it: the
+    binding must be the first call / name-binding of the statement in evaluation order)."""
+    for lst in list(_stmt_lists(fn)):
+        i = 0
+        guard = 0
+        while i < len(lst) and guard < 200:
+            guard += 1
+            st = lst[i]
+            if isinstance(st, ast.If):
+                holder, field = st, "test"
+            elif isinstance(st, (ast.Assign, ast.AnnAssign, ast.Return, ast.Expr)) and st.value is not None:
+                holder, field = st, "value"
+            else:
+                i += 1
+                continue
+            root = getattr(holder, field)
+            first = None
+
+            def walk(node):
+                """First node in evaluation order that is a call / walrus / await / yield; conditional positions stop."""
+                nonlocal first
+                if first is not None:
+                    return
+                if isinstance(node, ast.NamedExpr):
+                    first = node                    # its value moves with it
+                    return
+                if isinstance(node, (ast.Lambda, ast.ListComp, ast.SetComp, ast.DictComp, ast.GeneratorExp)):
+                    first = node
+                    return
+                if isinstance(node, ast.IfExp):
+                    walk(node.test)
+                    if first is None:
+                        first = node
+                    return
+                if isinstance(node, ast.BoolOp):
+                    walk(node.values[0])
+                    if first is None:
+                        first = node
+                    return
+                for c in ast.iter_child_nodes(node):
+                    walk(c)
+                    if first is not None:
+                        return
+                if isinstance(node, (ast.Call, ast.Await, ast.Yield, ast.YieldFrom, ast.Attribute, ast.Subscript)):
+                    first = node                    # evaluated before the binding: the binding is not moved across it
+
+            walk(root)
+            if isinstance(first, ast.NamedExpr) and isinstance(first.target, ast.Name):
+                ne = first
+                before = []
+                for node in ast.walk(root):          # loads of the target that come textually before the binding
+                    if isinstance(node, ast.Name) and node.id == ne.target.id and node is not ne.target \
+                            and (node.lineno, node.col_offset) < (ne.lineno, ne.col_offset):
+                        before.append(node)
+                if before:
+                    i += 1
+                    continue
+                new = ast.copy_location(ast.Assign(targets=[ast.Name(id=ne.target.id, ctx=ast.Store())], value=ne.value), st)
+                ast.fix_missing_locations(new)
+                load = ast.copy_location(ast.Name(id=ne.target.id, ctx=ast.Load()), ne)
+                if root is ne:
+                    setattr(holder, field, load)
+                else:
+                    for parent in ast.walk(root):
+                        for f2, v in ast.iter_fields(parent):
+                            if v is ne:
+                                setattr(parent, f2, load)
+                            elif isinstance(v, list):
+                                for j, x in enumerate(v):
+                                    if x is ne:
+                                        v[j] = load
+                lst.insert(i, new)                  # next: the new statement (a walrus inside its value), then this one again
+                continue
+            i += 1
+    return fn
+
+
 def normalise(fn, tree, cls=None, repo=None, rel=None, loops=True):
     fn = _copy.deepcopy(fn)
     ifexp_to_if(fn)
@@ -531,11 +956,18 @@ def normalise(fn, tree, cls=None, repo=None, rel=None, loops=True):
     first = (a.posonlyargs + a.args)[0].arg if cls is not None and (a.posonlyargs + a.args) else None
     if any(ast.unparse(d) == "staticmethod" for d in fn.decorator_list):
         first = None
-    _Inliner(fn, _Resolver(tree, cls, repo, rel), first)._process(fn, [fn.name])
+    hoist_walrus(fn)
+    inline_partials(fn)
+    res = _Resolver(tree, cls, repo, rel)
+    _Inliner(fn, res, first)._process(fn, [fn.name])
     ifexp_to_if(fn)
     if loops:
         comps_to_loops(fn)
+    hoist_walrus(fn)
+    split_tuple_assigns(fn)
+    split_records(fn, res)
     subst_aliases(fn)
+    inline_partials(fn)
     ast.fix_missing_locations(fn)
     fn._tree = tree
     return fn
